@@ -208,3 +208,42 @@ def nx_builder_parts(t: Term, sa: SetAlg):
         elif name == "add_edges_from" and args:
             edges.extend(_collection_parts(args[0], gens, sa))
     return t, nodes, edges
+
+
+
+def quantifier_of(rets: list):
+    """A boolean function written as (nested) search loops  `for x in S: [for y in T(x):] if c: return True` / `return False`  is
+    any(c for x in S for y in T(x)); dually all.  Returns the quantified term, the single value of a one-path function, or None."""
+    from ..terms import FALSE, TRUE
+    if len(rets) == 1:
+        return rets[0].value
+    if len(rets) != 2:
+        return None
+    by_val = {p.value: p for p in rets}
+    pt, pf = by_val.get(TRUE), by_val.get(FALSE)
+    if pt is None or pf is None:
+        return None
+    for early, late, q in ((pf, pt, "all"), (pt, pf, "any")):
+        if not any(c[0] == "forall-not" for c in late.conds):
+            continue
+        gens = []
+        cur = None
+        body = []
+        started = False
+        for c in early.conds:
+            if c[0] == "iter-elem":
+                if cur is not None:
+                    gens.append((cur[0], cur[1], tuple(body)))
+                cur = (c[1], c[2])
+                body = []
+                started = True
+            elif started:
+                body.append(c)
+        if cur is None or not body:
+            continue
+        final = body[-1]
+        gens.append((cur[0], cur[1], tuple(body[:-1])))
+        if q == "all":
+            final = final[1] if final[0] == "not" else ("not", final)
+        return (q, ("comp", "gen", final, tuple(gens)))
+    return None
